@@ -1,4 +1,6 @@
 """C03 — arithmetic is exact 64-bit C arithmetic or an error. See DESIGN.md §6 C03."""
+import os
+
 from vlib import core
 from vlib.core import Harness
 
@@ -92,7 +94,9 @@ def harnesses(tier):
         sym = ws[1:] if fixed_first else ws
         return Harness(name, what, FT,
                        "tokenizer total (no panic, progress, ranges on character boundaries inside the text), token kind "
-                       "determined by the first character, operators by longest match", timeout=1500, mem_gb=12, mod=MT,
+                       "determined by the first character, operators by longest match", timeout=1500,
+                       # measured: 12 GB is not enough for several arms of three characters / two wide characters
+                       mem_gb=20 if (len(ws) >= 3 or sum(int(c) for c in ws) >= 4) else 12, mod=MT,
                        stubs=UNI, cover_group="c03_text", cbmc_unwind=sum(int(c) for c in ws) + 3, loop_bounds=[OPTABLE],
                        native_enum=[CANDS[c] for c in sym])
 
@@ -241,7 +245,7 @@ def run(tier, seed, only=None):
         sess = setup(w, tier=tier)
         hs = [h for h in harnesses(tier) if not only or h.name in only]
         hs.sort(key=lambda h: -h.timeout)   # the long-running tokenizer obligations first
-        res = sess.run_all(hs, jobs=16 if tier == "quick" else 12)
+        res = sess.run_all(hs, jobs=int(os.environ.get("VERIF_JOBS", "16" if tier == "quick" else "10")))
         out.extra["kani_build_s"] = round(sess.build_s, 1)
         out.extra["repo_state"] = w.repo_state
         out.extra["injected"] = w.injected
